@@ -857,3 +857,214 @@ Proof.
     [|reflexivity|apply m_last_req_snoc].
   exists calls1, calls2, t, src, sp, dp, r, l. splits; auto.
 Qed.
+
+(* ------------------------------------------------------------------------------------------------ *)
+(** * lease_bound *)
+
+Lemma m_max_lease_snoc : forall hw l c,
+  m_max_lease (snd (dhcp_run hw (l ++ [c]))) =
+  match c with CSetMaxLeaseDuration x => x | _ => m_max_lease (snd (dhcp_run hw l)) end.
+Proof.
+  intros hw l c. rewrite dhcp_run_snoc. unfold dhcp_step_total.
+  destruct (dhcp_run hw l) as [s m]. cbn [fst snd].
+  destruct (dhcp_call_step hw s c) as [[s' ret]| |] eqn:E; cbn [fst snd].
+  2,3: destruct c; auto; cbn in E; discriminate.
+  destruct c; cbn [dhcp_call_step] in E.
+  - inv_bind E. inversion E; subst. cbn. destruct parsed; cbn; auto. destruct (ack_valid _ _ _); reflexivity.
+  - inv_bind E. inversion E; subst. cbn [mon_step]. destruct (snd v) as [|f|f]; cbn; auto.
+  - destruct (dhcp_poll s). inversion E; subst. reflexivity.
+  - inversion E; subst. reflexivity.
+  - inversion E; subst. reflexivity.
+  - inversion E; subst. reflexivity.
+  - inversion E; subst. reflexivity.
+  - inversion E; subst. reflexivity.
+  - inversion E; subst. reflexivity.
+Qed.
+
+(* the lease an ACK grants under a max_lease setting, spelled out *)
+Lemma dhcp_lease_duration_spec : forall r ml,
+  dhcp_lease_duration r ml =
+  let lease := match r_lease_duration r with Some d => d * 1000000 | None => dhcp_DEFAULT_LEASE_DURATION end in
+  match ml with Some m => Z.min lease m | None => lease end.
+Proof. reflexivity. Qed.
+
+Theorem c18_lease_bound : forall hw calls, Forall call_typed calls ->
+  forall cfg ra rb rbg e, ds_state (fst (dhcp_run hw calls)) = Renewing cfg ra rb rbg e ->
+  exists calls1 calls2 t src sp dp r l,
+    (* the most recent ACK satisfying every clause, received at time t *)
+    calls = calls1 ++ CProcess t src sp dp (Some r) :: calls2 /\
+    ack_received_by hw calls1 (CProcess t src sp dp (Some r)) = Some (t, r, l) /\
+    (forall x d' y, calls2 = x ++ d' :: y ->
+        ack_received_by hw (calls1 ++ CProcess t src sp dp (Some r) :: x) d' = None) /\
+    cfg_from_ack cfg r /\
+    (* the lease it grants: min(lease, max_lease) with the max_lease setting in force at its receipt *)
+    l = dhcp_lease_duration r (m_max_lease (snd (dhcp_run hw calls1))) /\
+    (* the socket's expiry instant is exactly t + that, and poll_at never exceeds it *)
+    e = t + l /\ dhcp_poll_at (fst (dhcp_run hw calls)) <= e.
+Proof.
+  intros hw calls Hty cfg ra rb rbg e Hst.
+  pose proof (dhcp_inv_run hw calls Hty) as Hinv.
+  destruct (dhcp_run hw calls) as [s m] eqn:Erun. cbn [fst snd] in *.
+  destruct Hinv as [_ [_ [_ [_ I5]]]]. rewrite Hst in I5.
+  destruct I5 as [J1 [t [r [l [J2 [J3 [J4 [J5 _]]]]]]]].
+  assert (Hm : m_ack (snd (dhcp_run hw calls)) = Some (t, r, l)) by (rewrite Erun; exact J2).
+  apply (last_occurrence _ _ (ack_received_by hw) (fun l => m_ack (snd (dhcp_run hw l)))) in Hm;
+    [|reflexivity|apply m_ack_snoc].
+  destruct Hm as [calls1 [c0 [calls2 [Hc [Hu Hlater]]]]].
+  pose proof (ack_received_by_spec _ _ _ _ _ _ Hu) as [[src [sp [dp ->]]] [Hcl [Hreq Hl]]].
+  exists calls1, calls2, t, src, sp, dp, r, l. splits; auto.
+  unfold dhcp_poll_at. rewrite Hst. lia.
+Qed.
+
+(* at or after expiry the first dispatch drops the lease (for EVERY socket value, reachable or not):
+   the next poll() reports Deconfigured, and - the device permitting - the DISCOVER leaves in the same dispatch *)
+Theorem c18_expiry_deconfigures : forall s cfg ra rb rbg e mtu now xid emit s' res,
+  ds_state s = Renewing cfg ra rb rbg e -> e <= now ->
+  dhcp_dispatch mtu now xid emit s = Ok (s', res) ->
+  (exists ra', ds_state s' = Discovering ra') /\
+  snd (dhcp_poll s') = Some EvDeconfigured /\
+  (0 <= now -> (forall f, emit f = true) -> exists f, res = DrSent f /\ tx_message_type f = MtDiscover).
+Proof.
+  intros s cfg ra rb rbg e mtu now xid emit s' res Hst He H.
+  unfold dhcp_dispatch in H. inv_bind H. rewrite Hst in H.
+  destruct (e <=? now) eqn:E; [|lia].
+  unfold dhcp_dispatch_discovering in H.
+  assert (Hr : ds_config_changed (dhcp_reset s) = true /\ ds_state (dhcp_reset s) = Discovering 0).
+  { unfold dhcp_reset. rewrite Hst. auto. }
+  destruct Hr as [Hr1 Hr2].
+  destruct (now <? 0) eqn:En.
+  - inversion H; subst. splits; eauto.
+    + unfold dhcp_poll. rewrite Hr1, Hr2. reflexivity.
+    + intros Hn He'. lia.
+  - match type of H with context [emit ?f] => set (fr := f) in * end.
+    destruct (emit fr) eqn:Ee.
+    + inv_bind H. inversion H; subst; clear H. splits.
+      * eexists. reflexivity.
+      * unfold dhcp_poll, dhcp_set_transaction_id, dhcp_set_state.
+        cbn [ds_config_changed ds_state]. rewrite Hr1. reflexivity.
+      * intros _ _. exists fr. auto.
+    + inversion H; subst. splits; eauto.
+      * unfold dhcp_poll. rewrite Hr1, Hr2. reflexivity.
+      * intros _ He'. rewrite He' in Ee. discriminate.
+Qed.
+
+(* ------------------------------------------------------------------------------------------------ *)
+(** * renew_before_rebind_before_expiry *)
+
+(* the instants computed from ANY lease / T1 / T2 (u32 seconds, absent, 0, equal, inverted, 2^32-1) and ANY max_lease *)
+Theorem c18_t1_t2_order : forall now r ml server c ra rb e,
+  repr_typed r -> (forall m, ml = Some m -> 0 <= m) ->
+  dhcp_parse_ack now r ml server = Ok (Some (c, ra, rb, e)) ->
+  now <= ra /\ ra <= rb /\ rb <= e /\ e = now + dhcp_lease_duration r ml.
+Proof.
+  intros now r ml server c ra rb e Hr Hm H.
+  apply dhcp_parse_ack_some in H; auto. intuition.
+Qed.
+
+Theorem c18_renew_before_rebind_before_expiry : forall hw calls, Forall call_typed calls ->
+  forall cfg ra rb rbg e, ds_state (fst (dhcp_run hw calls)) = Renewing cfg ra rb rbg e ->
+  (* T1 <= T2 <= expiry as long as the client is renewing *)
+  (rbg = false -> ra <= rb /\ rb <= e) /\
+  (* every renewal/rebinding REQUEST leaves strictly before expiry; unicast ones only before T2 and only while not
+     rebinding; from T2 on (and for the rest of the lease) they are broadcast *)
+  forall mtu now xid emit s' f,
+    dhcp_dispatch mtu now xid emit (fst (dhcp_run hw calls)) = Ok (s', DrSent f) ->
+    tx_message_type f = MtRequest ->
+    now < e /\
+    exists ra' rb', ds_state s' = Renewing cfg ra' rb' (rbg || (rb <=? now)) e /\
+      if rbg || (rb <=? now)
+      then tx_dst_addr f = ip_BROADCAST
+      else ra <= now /\ now < rb /\ tx_dst_addr f = si_address (cf_server cfg) /\ ra' <= rb /\ rb' = rb.
+Proof.
+  intros hw calls Hty cfg ra rb rbg e Hst.
+  pose proof (dhcp_inv_run hw calls Hty) as Hinv.
+  destruct (dhcp_run hw calls) as [s m] eqn:Erun. cbn [fst snd] in *.
+  destruct Hinv as [_ [_ [I3 [_ I5]]]]. rewrite Hst in I5.
+  destruct I5 as [J1 [t [r [l [J2 [J3 [J4 [J5 [J6 J7]]]]]]]]].
+  split; [exact J7|].
+  intros mtu now xid emit s' f H Hmt.
+  unfold dhcp_dispatch in H. inv_bind H. rewrite Hst in H.
+  destruct (e <=? now) eqn:Ee.
+  { (* expired: only a DISCOVER can leave *)
+    unfold dhcp_dispatch_discovering in H. destruct (now <? 0); [discriminate|].
+    match type of H with context [emit ?f] => destruct (emit f) end; [|discriminate].
+    inv_bind H. inversion H; subst. cbn in Hmt. discriminate. }
+  destruct ((now <? ra) || (rbg && (now <? rb))) eqn:Ew; [discriminate|].
+  match type of H with context [emit ?f] => set (fr := f) in * end.
+  destruct (emit fr) eqn:Eem; [|discriminate].
+  split; [lia|].
+  destruct (rbg || (rb <=? now)) eqn:Erb.
+  - inv_bind H. inv_bind H. inversion H; subst; clear H. subst fr. cbn.
+    eexists _, _. split; reflexivity.
+  - apply orb_false_iff in Erb. destruct Erb as [-> Erb].
+    inv_bind H. inv_bind H. inversion H; subst; clear H. subst fr. cbn.
+    specialize (J7 eq_refl). destruct J7 as [J7 J8].
+    apply dh_inst_sub_ok in Hv0. destruct Hv0 as [-> Hd].
+    destruct I3 as [_ [_ [_ [T4 T5]]]]. unfold u64_ok in *.
+    assert (Hab : Z.abs (rb - now) = rb - now) by lia. rewrite Hab in *.
+    apply dh_inst_add_exact in Hv1; [|unfold dh_I64_MAX in *; lia].
+    eexists _, _. split; [reflexivity|]. cbn in Ew. splits; try lia; auto.
+Qed.
+
+(* ------------------------------------------------------------------------------------------------ *)
+(** * solicits_at_bounded_intervals *)
+
+Definition dhcp_unconfigured (s : dhcp_socket) : Prop :=
+  match ds_state s with Renewing _ _ _ _ _ => False | _ => True end.
+
+(* (1) whenever the client is unconfigured its next deadline is not later than
+       max(latest timestamp it was given, last transmission + solicit_bound(configuration at that transmission)) *)
+Theorem c18_solicit_deadline : forall hw calls, Forall call_typed calls ->
+  let s := fst (dhcp_run hw calls) in let m := snd (dhcp_run hw calls) in
+  dhcp_unconfigured s -> dhcp_poll_at s <= Z.max (m_clock m) (m_deadline m).
+Proof.
+  intros hw calls Hty s m Hu. subst s m.
+  pose proof (dhcp_inv_run hw calls Hty) as Hinv.
+  destruct (dhcp_run hw calls) as [s m]. cbn [fst snd] in *.
+  destruct Hinv as [_ [_ [_ [_ I5]]]]. unfold dhcp_unconfigured in Hu. unfold dhcp_poll_at.
+  destruct (ds_state s); intuition.
+Qed.
+
+(* (2) a dispatch at or after that deadline on a device that accepts the frame always transmits a DISCOVER or REQUEST,
+       stays unconfigured, and arms the next deadline within solicit_bound of the configuration  (every socket value) *)
+Theorem c18_solicit_when_due : forall s mtu now xid emit s' res,
+  dhcp_unconfigured s -> retry_cfg_typed (ds_retry_config s) ->
+  (match ds_state s with Requesting _ retry _ _ => 0 <= retry | _ => True end) ->
+  dhcp_poll_at s <= now -> 0 <= now -> (forall f, emit f = true) ->
+  dhcp_dispatch mtu now xid emit s = Ok (s', res) ->
+  exists f, res = DrSent f /\ tx_client_ip f = 0 /\ tx_dst_addr f = ip_BROADCAST /\
+    (tx_message_type f = MtDiscover \/ tx_message_type f = MtRequest) /\
+    dhcp_unconfigured s' /\ dhcp_poll_at s' <= now + solicit_bound (ds_retry_config s).
+Proof.
+  intros s mtu now xid emit s' res Hu [T1 [T2 [T3 [T4 T5]]]] Hr Hdue Hn Hem H.
+  unfold dhcp_dispatch in H. inv_bind H. unfold dhcp_unconfigured, dhcp_poll_at in *.
+  assert (Hdisc : forall s0 ra, ds_retry_config s0 = ds_retry_config s -> ra <= now ->
+            dhcp_dispatch_discovering v now xid emit s0 ra = Ok (s', res) ->
+            exists f, res = DrSent f /\ tx_client_ip f = 0 /\ tx_dst_addr f = ip_BROADCAST /\
+              (tx_message_type f = MtDiscover \/ tx_message_type f = MtRequest) /\
+              match ds_state s' with Renewing _ _ _ _ _ => False | _ => True end /\
+              match ds_state s' with
+              | Discovering retry_at => retry_at
+              | Requesting retry_at _ _ _ => retry_at
+              | Renewing _ renew_at rebind_at rebinding expires_at =>
+                  Z.min (if rebinding then rebind_at else Z.min renew_at rebind_at) expires_at
+              end <= now + solicit_bound (ds_retry_config s)).
+  { intros s0 ra E Hra Hd. apply dhcp_dispatch_discovering_spec in Hd; [|rewrite E; auto].
+    destruct Hd as [[_ [_ Hlt]] | [[f [_ [_ [_ [Hf _]]]]] | [f [ra' [-> [_ [_ [Hmt [_ [Hci [Hdst [-> [_ Hra']]]]]]]]]]]]].
+    - lia.
+    - rewrite Hem in Hf. discriminate.
+    - exists f. rewrite E in Hra'. pose proof (solicit_bound_disc (ds_retry_config s)).
+      splits; auto; cbn; [exact I|lia]. }
+  destruct (ds_state s) as [ra0 | ra0 retry server rip | ] eqn:Est; [| |contradiction].
+  - apply (Hdisc s ra0); [reflexivity|lia|exact H].
+  - destruct (now <? ra0) eqn:E1; [lia|].
+    destruct (rc_request_retries (ds_retry_config s) <=? retry) eqn:E2.
+    { apply (Hdisc (dhcp_reset s) 0); [apply dhcp_reset_retry_config|lia|exact H]. }
+    match type of H with context [emit ?f] => set (fr := f) in * end.
+    rewrite Hem in H. inv_bind H. inv_bind H. destruct (65535 <? retry + 1); [discriminate|].
+    inversion H; subst; clear H. exists fr. subst fr. cbn.
+    apply shl_wrapped_le in Hv0; [|unfold u64_ok in T2; lia|apply Z.div_pos; lia].
+    pose proof (dh_inst_add_le _ _ _ (proj1 Hv0) Hv1) as Hle.
+    pose proof (solicit_bound_req (ds_retry_config s) retry ltac:(unfold u64_ok in T2; lia) ltac:(lia)) as Hb.
+    splits; auto. lia.
+Qed.
